@@ -294,6 +294,12 @@ def vm_facts(toks):
                   and ".closure.upvalues.borrow()[index]};" in s))
     s = "".join(body_texts("close_upvalue_impl"))
     facts.append(("close_upvalue_top", s == "letstack_size=self.stack_size();self.active_fiber_mut().close_upvalues(stack_size-1);self.pop();"))
+    # set_global_impl: the probe-by-insert is undone when the name had no binding (a failing SetGlobal defines nothing)
+    s = "".join(body_texts("set_global_impl"))
+    facts.append(("set_global_undone_on_failure", "letprev=globals.insert(name,value);ifprev.is_none(){globals.remove(&name);}prev.is_none()" in s
+                  and 'ErrorKind::NameError,"Undefined variable \'{}\'.",*name' in s))
+    s = "".join(body_texts("get_global_impl"))
+    facts.append(("get_global_reads_only", ".attributes.get(&name)" in s and "insert(" not in s))
     # into_bool: only false and nil are falsy
     vt = lex(read("value.rs"))
     o, c = fn_body(vt, "into_bool")
